@@ -103,7 +103,7 @@ SHIMS = {
     'sgr-text-ref': dict(pattern=r'&TEXT\[&(\w+)\]', replace=r'tblref_TEXT(\1)', spec='the documented TEXT entry (requires membership)'),
     'str-tail': dict(pattern=r'\b(\w+)\[1\.\.\]\.to_string\(\)', replace=r'str_tail_to_string(\1)', spec='requires a one-byte first character; r@ == s@.subrange(1, len)'),
     'starts-with-to-string': dict(pattern=r"\b(\w+)\.starts_with\(('.')\)\.to_string\(\)", replace=r'starts_with_char_to_string(\1, \2)', spec='r@ == "true"/"false" according to the first character'),
-    'palette-get': dict(pattern=r'\bFG_BG_256\[(\w+) as usize\]\.clone\(\)', replace=r'palette_get(\1 as usize)', spec='requires index < 256; r@ == palette(index) (table contents assumed)'),
+    'palette-get': dict(pattern=r'\bFG_BG_256\[(\w+(?: as usize)?)\]\.clone\(\)', replace=r'palette_get(\1)', spec='requires index < 256; r@ == palette(index) (table contents assumed)'),
     'palette-len': dict(pattern=r'\bFG_BG_256\.len\(\)', replace=r'palette_len()', spec='r == 256'),
     'fmt-hex6': dict(pattern=r'format!\(("[^"]*"), (\w+), (\w+), (\w+)\)', replace=r'fmt_hex6(\1, \2, \3, \4)', spec='for the format string "{:02x}{:02x}{:02x}" and components <= 255: hex6(r, g, b)'),
     'bool-to-string': dict(pattern=r'\bself\.(bold|italics|underscore|strikethrough|reverse|blink)\.to_string\(\)', replace=r'bool_to_string(self.\1)', spec='r@ == "true" / "false"'),
